@@ -9,6 +9,8 @@
 #include "cntgs/detail/typeTraits.hpp"
 
 #include <iterator>
+#include <string>
+#include <vector>
 #include <version>
 
 namespace cntgs::detail
@@ -41,13 +43,36 @@ constexpr auto operator_arrow_produces_pointer_to_iterator_reference_type() noex
     }
 }
 
+// A random access iterator whose operator-> yields a pointer is not necessarily contiguous (std::deque::iterator,
+// std::reverse_iterator). Before C++20 contiguity cannot be detected, therefore only iterators that are known to be
+// contiguous are accepted.
+#ifdef __cpp_lib_concepts
+template <class I>
+inline constexpr bool IS_KNOWN_CONTIGUOUS_ITERATOR = std::contiguous_iterator<I>;
+#else
+template <class I, class V,
+          bool = std::is_same_v<V, char> || std::is_same_v<V, wchar_t> || std::is_same_v<V, char16_t> ||
+                 std::is_same_v<V, char32_t>>
+inline constexpr bool IS_STRING_ITERATOR = false;
+
+template <class I, class V>
+inline constexpr bool IS_STRING_ITERATOR<I, V, true> =
+    std::is_same_v<I, typename std::basic_string<V>::iterator> ||
+    std::is_same_v<I, typename std::basic_string<V>::const_iterator>;
+
+template <class I, class V = typename std::iterator_traits<I>::value_type>
+inline constexpr bool IS_KNOWN_CONTIGUOUS_ITERATOR =
+    std::is_same_v<I, typename std::vector<V>::iterator> || std::is_same_v<I, typename std::vector<V>::const_iterator> ||
+    detail::IS_STRING_ITERATOR<I, V>;
+#endif
+
 template <class I>
 inline constexpr bool CONTIGUOUS_ITERATOR_V =
     detail::IS_DERIVED_FROM<typename std::iterator_traits<I>::iterator_category, std::random_access_iterator_tag> &&
     std::is_lvalue_reference_v<typename std::iterator_traits<I>::reference> &&
     std::is_same_v<typename std::iterator_traits<I>::value_type,
                    detail::RemoveCvrefT<typename std::iterator_traits<I>::reference>> &&
-    detail::operator_arrow_produces_pointer_to_iterator_reference_type<I>();
+    detail::operator_arrow_produces_pointer_to_iterator_reference_type<I>() && detail::IS_KNOWN_CONTIGUOUS_ITERATOR<I>;
 }  // namespace cntgs::detail
 
 #endif  // CNTGS_DETAIL_ITERATOR_HPP
